@@ -101,7 +101,9 @@ def run(ctx):
             cmds, scripts = [("prepare", cmd_prepare(b"p")), ("execute", cmd_execute(1))], ["p reply 1 0 0", " ".join(x for x in ["x all - start 1 " + c1, body, "ferr %d %s" % (code, h)] if x)]
         else:
             cmds, scripts = [("query", cmd_query(b"USE x"))], ["i err %d %s" % (code, h)]
-        c = mk_case("c13_%d" % i, cmds + [("ping", cmd_ping())], scripts, lim=rng.choice([U24_MAX, U24_MAX, 11]))
+        # one case in five: the client answered the greeting in the pre-4.1 layout (the ERR packet is the same)
+        hs = hs320(b"old", caps=0x0005, tail=b"pw") if i % 5 == 2 else None
+        c = mk_case("c13_%d" % i, cmds + [("ping", cmd_ping())], scripts, lim=rng.choice([U24_MAX, U24_MAX, 11]), hs=hs)
         c.meta["err"] = (code, ref[code][1], msg)
         cases.append(c)
 
